@@ -31,18 +31,18 @@ package core
 //@   props C01 C02 C08 C12
 //@   modifies bytes.Buffer.glen, bytes.Buffer.gdata
 //@   requires swf(c)
-//@   ensures[short@C08] n > slen(c) ==> buf == nil
-//@   ensures[len@C08] n <= slen(c) ==> (err == nil && len(buf) == ite(n <= 0, slen(c), n))
-//@   ensures[data@C08] n <= slen(c) ==> (forall k int :: (0 <= k && k < len(buf)) ==> buf[k] == sat(c, k))
+//@   ensures[short@C01,C02,C08,C12] n > slen(c) ==> buf == nil
+//@   ensures[len@C01,C02,C08,C12] n <= slen(c) ==> (err == nil && len(buf) == ite(n <= 0, slen(c), n))
+//@   ensures[data@C01,C02,C08,C12] n <= slen(c) ==> (forall k int :: (0 <= k && k < len(buf)) ==> buf[k] == sat(c, k))
 
 //@ func conn.Discard
 //@   props C01 C02 C08 C12
 //@   modifies c.buffer, ring.Buffer.r, ring.Buffer.w, ring.Buffer.isEmpty, elastic.RingBuffer.rb
 //@   requires swf(c)
 //@   ensures[wf] swf(c)
-//@   ensures[all@C08] (n <= 0 || n > old(slen(c))) ==> (slen(c) == 0 && result0 == old(slen(c)))
-//@   ensures[some.len@C08] (0 < n && n <= old(slen(c))) ==> (slen(c) == old(slen(c)) - n && result0 == n)
-//@   ensures[some.data@C08] (0 < n && n <= old(slen(c))) ==> (forall k int :: (0 <= k && k < slen(c)) ==> sat(c, k) == old(sat(c, k + n)))
+//@   ensures[all@C01,C02,C08,C12] (n <= 0 || n > old(slen(c))) ==> (slen(c) == 0 && result0 == old(slen(c)))
+//@   ensures[some.len@C01,C02,C08,C12] (0 < n && n <= old(slen(c))) ==> (slen(c) == old(slen(c)) - n && result0 == n)
+//@   ensures[some.data@C01,C02,C08,C12] (0 < n && n <= old(slen(c))) ==> (forall k int :: (0 <= k && k < slen(c)) ==> sat(c, k) == old(sat(c, k + n)))
 //@   ensures[err] result1 == nil
 
 //@ func msgPool.Get
